@@ -232,7 +232,7 @@ def record(stream, rid):
   """Render, run the reader, project.  Returns (trace record, aux) or raises."""
   df = stream["df"]
   labelled = [(U.frames_to_label(fr, df), ws) for fr, ws in stream["lines"]]
-  text = U.render_scc(labelled, df, parity=stream["parity"])
+  text = U.render_scc(labelled, df, parity=stream["parity"], seps=stream.get("seps"))
   doc = U.run_reader(text, stream["align"])
   pars = U.project_doc(doc, df)
   first = stream["lines"][0][0]
